@@ -148,6 +148,12 @@ def gen_ops(ctx):
         if rng.random() < 0.05:
             ps.insert(rng.randrange(len(ps) + 1), [])      # excluded point: empty payload
         ops.append("slip %s %s" % (splits_s(gen_splits(rng)), " ".join(hx(p) for p in ps)))
+    # the same, over a transport that returns its LAST byte together with io.EOF (n > 0 and err != nil in one Read,
+    # which the io.Reader contract allows); oracle only, not part of the Lean transport model
+    for _ in range(300 if quick else 3000):
+        n = rng.choice([1, 1, 2, 3])
+        ps = [gen_payload(rng, 40) for _ in range(n)]
+        ops.append("slipeof %s %s" % (splits_s(gen_splits(rng)), " ".join(hx(p) for p in ps)))
     # every payload over the special alphabet up to length 3 (quick) / 4, one-byte reads and one big read
     alpha = SPECIAL + [0x41]
     seqs = [[]]
@@ -259,7 +265,7 @@ def run(ctx):
     impl = out.splitlines()
 
     nontrivial = set()
-    dist = {"slip": 0, "raw": 0, "mux": 0, "rawmux": 0, "fcs": 0, "slip_packets": 0, "mux_frames": 0,
+    dist = {"slip": 0, "slipeof": 0, "raw": 0, "mux": 0, "rawmux": 0, "fcs": 0, "slip_packets": 0, "mux_frames": 0,
             "mux_frames_excluded": 0, "escaped_bytes": 0, "one_byte_reads": 0}
 
     # ---------------- oracle: the property itself on the real code's answers
@@ -271,7 +277,21 @@ def run(ctx):
             ctx.violation("%s:%s" % (kind, r.split()[0].lower()), "%s -> %s" % (op[:300], r[:200]), {"op": op, "impl": r})
             continue
         kv = parse_kv(r)
-        if kind == "slip":
+        if kind == "slipeof":
+            ps = [unhx(h) for h in f[2:]]
+            want = [p for p in ps if p]
+            got = [] if kv["pk"] == "none" else [unhx(h) for h in kv["pk"].split(",")]
+            if got != want or kv["tail"] != "-":
+                if got == want[:-1] and unhx(kv["tail"]) == want[-1]:
+                    key = "slip:byte-returned-together-with-error-is-dropped"
+                    what = ("Reader.ReadPacket discards a byte that Read returned together with an error (`if n == 0 || err != nil`): over a "
+                            "transport that returns its last byte with io.EOF the final END is lost and the last packet %s is reported with "
+                            "isPrefix=true instead of complete" % hx(want[-1])[:60])
+                else:
+                    key, what = "slip:data-with-eof-transport-other", "payloads %s read back as %s tail=%s" % (" ".join(f[2:])[:200], kv["pk"][:200], kv["tail"])
+                ctx.violation(key, what, {"op": op, "impl": r})
+            nontrivial.add(("slipeof", len(want), f[1] == "1"))
+        elif kind == "slip":
             ps = [unhx(h) for h in f[2:]]
             want = [p for p in ps if p]                  # empty payloads are not packets (excluded point)
             got = [] if kv["pk"] == "none" else [unhx(h) for h in kv["pk"].split(",")]
@@ -336,8 +356,10 @@ def run(ctx):
 
     # ---------------- correspondence with the Lean model
     if model:
-        rcm, mout, merr = ctx.run_bin(model, input_text="\n".join(ops) + "\n")
-        diffs = ctx.diff_lines(ops, impl, mout.splitlines())
+        keep = [i for i, o in enumerate(ops) if not o.startswith("slipeof")]      # slipeof: oracle only
+        mops = [ops[i] for i in keep]
+        rcm, mout, merr = ctx.run_bin(model, input_text="\n".join(mops) + "\n")
+        diffs = ctx.diff_lines(mops, [impl[i] for i in keep], mout.splitlines())
         for i, op, a, b in diffs[:20]:
             ctx.proof["broken"].append({"theorem": "correspondence C25 model vs slip.go/slipmux.go/fcs.go",
                                         "why": "op %r: impl=%r model=%r" % (op[:300], a[:300], b[:300])})
